@@ -45,18 +45,75 @@ package server
 //@ func (*State).Create
 //@   props C11
 //@   requires server != nil && server.state != nil && req != nil
+//@   ghostlocal classified bool
+//@   ghostlocal wrappedErr error
+//@   at IsNotFoundError #1
+//@     ghost_here wrappedErr = err
+//@     ghost_here classified = true
+//@   ensures [error-class-becomes-status-code] classified && wrappedErr != nil ==> result1 != nil &&
+//@     (isNotFound(wrappedErr) ==> statusCode(result1) == 5) &&
+//@     (!isNotFound(wrappedErr) && isOwnerConflict(wrappedErr) ==> statusCode(result1) == 7) &&
+//@     (!isNotFound(wrappedErr) && !isOwnerConflict(wrappedErr) && !isPhaseConflict(wrappedErr) && isConflict(wrappedErr) ==> statusCode(result1) == 6)
 //@ func (*State).Update
 //@   props C11
 //@   requires server != nil && server.state != nil && req != nil
+//@   ghostlocal classified bool
+//@   ghostlocal wrappedErr error
+//@   at IsNotFoundError #1
+//@     ghost_here wrappedErr = err
+//@     ghost_here classified = true
+//@   ensures [error-class-becomes-status-code] classified && wrappedErr != nil ==> result1 != nil &&
+//@     (isNotFound(wrappedErr) ==> statusCode(result1) == 5) &&
+//@     (!isNotFound(wrappedErr) && isOwnerConflict(wrappedErr) ==> statusCode(result1) == 7) &&
+//@     (!isNotFound(wrappedErr) && !isOwnerConflict(wrappedErr) && isPhaseConflict(wrappedErr) ==> statusCode(result1) == 3) &&
+//@     (!isNotFound(wrappedErr) && !isOwnerConflict(wrappedErr) && !isPhaseConflict(wrappedErr) && isConflict(wrappedErr) ==> statusCode(result1) == 9)
 //@ func (*State).Destroy
 //@   props C11
 //@   requires server != nil && server.state != nil && req != nil
+//@   ghostlocal classified bool
+//@   ghostlocal wrappedErr error
+//@   at IsNotFoundError #1
+//@     ghost_here wrappedErr = err
+//@     ghost_here classified = true
+//@   ensures [error-class-becomes-status-code] classified && wrappedErr != nil ==> result1 != nil &&
+//@     (isNotFound(wrappedErr) ==> statusCode(result1) == 5) &&
+//@     (!isNotFound(wrappedErr) && isOwnerConflict(wrappedErr) ==> statusCode(result1) == 7) &&
+//@     (!isNotFound(wrappedErr) && !isOwnerConflict(wrappedErr) && !isPhaseConflict(wrappedErr) && isConflict(wrappedErr) ==> statusCode(result1) == 9)
 //@ func (*State).Teardown
 //@   props C11
 //@   requires server != nil && server.state != nil && req != nil
+//@   ghostlocal classified bool
+//@   ghostlocal wrappedErr error
+//@   at IsNotFoundError #1
+//@     ghost_here wrappedErr = err
+//@     ghost_here classified = true
+//@   ensures [error-class-becomes-status-code] classified && wrappedErr != nil ==> result1 != nil &&
+//@     (isNotFound(wrappedErr) ==> statusCode(result1) == 5) &&
+//@     (!isNotFound(wrappedErr) && isOwnerConflict(wrappedErr) ==> statusCode(result1) == 7) &&
+//@     (!isNotFound(wrappedErr) && !isOwnerConflict(wrappedErr) && !isPhaseConflict(wrappedErr) && isConflict(wrappedErr) ==> statusCode(result1) == 9)
+// A phase conflict reported by the wrapped state (the resource turned tearing-down between the two
+// reads of the Get+Update fallback) keeps its class across the wire, as it does for Update.
+//@   ensures [phase-conflict-class-survives-the-wire] classified && wrappedErr != nil && !isNotFound(wrappedErr) && !isOwnerConflict(wrappedErr) && isPhaseConflict(wrappedErr) ==> result1 != nil && statusCode(result1) == 3
 //@ func (*State).TeardownAndDestroy
 //@   props C11
 //@   requires server != nil && server.state != nil && req != nil
+//@   ghostlocal classified bool
+//@   ghostlocal wrappedErr error
+//@   at IsNotFoundError #1
+//@     ghost_here wrappedErr = err
+//@     ghost_here classified = true
+//@   ensures [error-class-becomes-status-code] classified && wrappedErr != nil ==> result1 != nil &&
+//@     (isNotFound(wrappedErr) ==> statusCode(result1) == 5) &&
+//@     (!isNotFound(wrappedErr) && isOwnerConflict(wrappedErr) ==> statusCode(result1) == 7) &&
+//@     (!isNotFound(wrappedErr) && !isOwnerConflict(wrappedErr) && !isPhaseConflict(wrappedErr) && isConflict(wrappedErr) ==> statusCode(result1) == 9)
+// A phase conflict reported by the wrapped state (the resource turned tearing-down between the two
+// reads of the Get+Update fallback) keeps its class across the wire, as it does for Update.
+//@   ensures [phase-conflict-class-survives-the-wire] classified && wrappedErr != nil && !isNotFound(wrappedErr) && !isOwnerConflict(wrappedErr) && isPhaseConflict(wrappedErr) ==> result1 != nil && statusCode(result1) == 3
+
+// C11, error classes on the server side: whatever class the wrapped state's error has (not-found,
+// owner conflict, phase conflict, conflict - tested in this order) determines the status code sent:
+// 5 NotFound, 7 PermissionDenied, 3 InvalidArgument, 9 FailedPrecondition (6 AlreadyExists for
+// Create). The client turns the code back into the class (pkg/state/protobuf/client).
 
 // Generated protobuf accessors are nil-safe one-liners: they are inlined.
 //@ inline_matching ^api/v1alpha1\.\(\*\w+\)\.Get\w+$
